@@ -105,6 +105,13 @@ def run_property(pid, tier, write=True, root=None):
     for it in _core.ALL_INTERPS:
         visited |= set(it.visited_funcs)
         decorated_ok |= set(it.decorated_ok)
+    try:
+        from .props.common import python_traps
+        python_traps(rep, prog, visited)
+    except Exception:
+        traceback.print_exc()
+        analysis_error(pid, "checker crashed: see traceback")
+        return 2, rep
     vmods = {q.rsplit(".", 2)[0] if q.rsplit(".", 1)[0] not in prog.modules else q.rsplit(".", 1)[0] for q in visited}
     forb = []
     for m in prog.modules.values():
